@@ -279,8 +279,11 @@ func gen(kind string) func(t *rapid.T) kvh.Case {
 			c.Cmp = dom.TotalCmps[rapid.IntRange(0, len(dom.TotalCmps)-1).Draw(t, "cmp")]
 			c.VCmp = dom.TotalCmps[rapid.IntRange(0, len(dom.TotalCmps)-1).Draw(t, "vcmp")]
 		}
-		hi := []int{2, 5, 5, 12}[rapid.IntRange(0, 3).Draw(t, "range")]
+		hi := []int{2, 5, 5, 12, 60}[rapid.IntRange(0, 4).Draw(t, "range")]
 		n := rapid.IntRange(0, 40).Draw(t, "n")
+		if hi == 60 {
+			n = rapid.IntRange(30, 200).Draw(t, "nlong") // dozens of pairs: deeper trees, long histories
+		}
 		for i := 0; i < n; i++ {
 			switch dom.Weighted(t, "op", 1, 60, 25, 2) {
 			case 0:
